@@ -6,7 +6,8 @@ from .model import AnalysisError, FuncInfo
 from .values import *    # noqa
 from .strtree import *   # noqa
 from .symeval import InterpCore, Env, ReturnSignal, RaiseSignal, ContinueSignal, is_strlike, make_phi
-from .symeval_ops import (OpsMixin, BoundBuiltin, DerivV, NTClassV, NTV, ExcV, ChunkListV, SJoin, SJoinItems,
+import ast
+from .symeval_ops import (PyObjV, OpsMixin, BoundBuiltin, DerivV, NTClassV, NTV, ExcV, ChunkListV, SJoin, SJoinItems,
                           strip_docstring_body)
 from .symeval_ext import ExtMixin, SetAccV
 from .symeval_stmt import StmtMixin, ChunkItem
@@ -110,6 +111,10 @@ class Interp(StmtMixin, ExtMixin, OpsMixin, InterpCore):
         return g.value, g.events
 
     def as_iterable(self, v, node=None):
+        if self.is_listlike(v) and v.ci.lookup("__iter__") is None:
+            return self.hidden_list(v)
+        if isinstance(v, PyObjV) and hasattr(v.obj, "iter_items"):
+            return ListV(list(v.obj.iter_items(self)), "list")
         if isinstance(v, GenV):
             if v.consumed:
                 return ListV([], "list")     # a generator yields its items once
@@ -287,6 +292,8 @@ class Interp(StmtMixin, ExtMixin, OpsMixin, InterpCore):
     def getattr(self, base, attr, node=None):
         from .symeval_ext import SuperV
         from .model import ClassInfo
+        if self.is_listlike(base) and attr in ("append", "extend", "sort", "index", "count") and base.ci.lookup(attr) is None:
+            return BoundBuiltin(self.hidden_list(base), attr)
         if self.is_proxy(base) and attr not in base.attrs:
             found_in_class = any(isinstance(c, ClassInfo) and (attr in c.methods or attr in c.class_attrs) for c in base.ci.mro())
             if not found_in_class:
@@ -322,6 +329,61 @@ class Interp(StmtMixin, ExtMixin, OpsMixin, InterpCore):
         args[0].attrs["__wrapped__"] = args[1]
         return NONE
 
+    # subclasses of list (TableReaderBase): the items live in a hidden ListV
+    def is_listlike(self, v):
+        from .model import ExternalClass
+        return isinstance(v, InstV) and any(isinstance(c, ExternalClass) and c.name == "list" for c in v.ci.mro())
+
+    def hidden_list(self, v):
+        l = v.attrs.get("@items")
+        if l is None:
+            l = ListV([], "list")
+            l.birth = len(self.path_conds)
+            v.attrs["@items"] = l
+        return l
+
+    def getitem(self, base, idx, node=None):
+        if self.is_listlike(base) and base.ci.lookup("__getitem__") is None:
+            return OpsMixin.getitem(self, self.hidden_list(base), idx, node)
+        return OpsMixin.getitem(self, base, idx, node)
+
+    def setitem(self, base, idx, val, node):
+        if self.is_listlike(base):
+            return StmtMixin.setitem(self, self.hidden_list(base), idx, val, node)
+        return StmtMixin.setitem(self, base, idx, val, node)
+
+    def x_len(self, args, kwargs, node, env):
+        v = args[0]
+        if self.is_listlike(v) and v.ci.lookup("__len__") is None:
+            return ExtMixin.x_len(self, [self.hidden_list(v)], kwargs, node, env)
+        if isinstance(v, InstV) and v.ci.lookup("__len__") is not None:
+            return self.call_function(FuncV(v.ci.lookup("__len__"), selfv=v), [], {}, node)
+        return ExtMixin.x_len(self, args, kwargs, node, env)
+
+    def x_bisect_bisect_left(self, args, kwargs, node, env):
+        seq, x = args[0], args[1]
+        n = self.x_len([seq], {}, node, env)
+        hi = n.const()
+        if hi is None:
+            self.err(node, "bisect on a sequence of symbolic length")
+        lo, hi = 0, int(hi)
+        while lo < hi:
+            mid = (lo + hi) // 2
+            item = self.getitem(seq, Num(ep.const(mid)), node)
+            c = self.compare(ast.Lt(), item, x, node)
+            if not isinstance(c, bool):
+                self.err(node, "bisect comparison is symbolic")
+            if c:
+                lo = mid + 1
+            else:
+                hi = mid
+        return Num(ep.const(lo))
+
+    def x_re_compile(self, args, kwargs, node, env):
+        if not (isinstance(args[0], Const) and isinstance(args[0].v, str)):
+            self.err(node, "re.compile of a non-constant pattern")
+        return PyObjV(RegexModel(args[0].v))
+
     def is_proxy(self, v):
         from .model import ExternalClass
         return isinstance(v, InstV) and any(isinstance(c, ExternalClass) and c.name.endswith("ObjectProxy") for c in v.ci.mro())
@@ -343,6 +405,36 @@ class Interp(StmtMixin, ExtMixin, OpsMixin, InterpCore):
     def run(self, fi, args, kwargs=None, selfv=None):
         fv = FuncV(fi, selfv=selfv)
         return self.call_function(fv, args, kwargs or {}, None)
+
+
+class RegexModel(object):
+    """constant folding of re on literal strings"""
+    def __init__(self, pattern):
+        import re
+        self.rx = re.compile(pattern)
+
+    def _s(self, v):
+        if not (isinstance(v, Const) and isinstance(v.v, str)):
+            raise AnalysisError("regular expression applied to a symbolic string")
+        return v.v
+
+    def m_split(self, I, args, kwargs):
+        return ListV([Const(x) for x in self.rx.split(self._s(args[0]))], "list")
+
+    def m_match(self, I, args, kwargs):
+        m = self.rx.match(self._s(args[0]))
+        return NONE if m is None else PyObjV(MatchModel(m))
+
+
+class MatchModel(object):
+    def __init__(self, m):
+        self.m = m
+
+    def m_groups(self, I, args, kwargs):
+        return ListV([Const(g) for g in self.m.groups()], "tuple")
+
+    def m_group(self, I, args, kwargs):
+        return Const(self.m.group(int(args[0].const()) if args else 0))
 
 
 class GenV(V):
